@@ -351,7 +351,8 @@ EXPECT = ["C05.level_kurtosis_from_the_simulated_samples", "C05.price_is_sum_of_
 
 
 def main(tier):
-    bounds = {"quick": f"initial_level in {{0,1}}, N0 in {{1,2}}, level_max <= initial+1, sample-size answers in [0,2], <= {MAX_PASSES} passes; fixed-level variant with up to 3 "
+    bounds = {"histories_and_variants": 'worker-pool branch (nb_of_processes = 2) with the pool run in-process, same sizes as the single-process runs',
+              "quick": f"initial_level in {{0,1}}, N0 in {{1,2}}, level_max <= initial+1, sample-size answers in [0,2], <= {MAX_PASSES} passes; fixed-level variant with up to 3 "
                        "levels created at once; one level of 100 samples with answers 100..101 (1% rule)",
               "thorough": "initial_level <= 2, N0 <= 3, level_max <= initial+2, per configuration (answers bound, passes) from ([0,3], 4) on one or two levels down to "
                           "([0,1], 4) / ([0,2], 3) / ([0,3], 2) on three and four levels; levels of 100/200 samples with answers up to +3; fixed-level variant with maximum_level below/above initial_level",
